@@ -664,6 +664,20 @@ var streamForms = []form{
 	{prog: "def w($n): def _w: . as $x | if $x < $n then $x, ($x + 1 | _w) else empty end; _w; 0 | w(1000000000)"},
 	{prog: "def rp(f): def _r: f, _r; _r; rp(1, 2)"},
 	{prog: "def rc(f): def r: ., (f | r); r; 0 | rc(. + 1)"},
+	// constant pipes (literal | literal / $var / constant array / constant object) in loop bodies
+	{prog: "0 | while(true; . as $s | 1 | $s + 1)"},
+	{prog: "0 | while(. as $s | null | $s | . < 1000000000; . as $s | \"a\" | 2 | $s + 1)"},
+	{prog: "0 | recurse(. as $s | null | [1, 2] | $s + 1)"},
+	{prog: "0 | recurse(. as $s | \"a\" | {a: 1} | $s + 1; true)"},
+	{prog: "repeat(1 | 2)"},
+	{prog: "repeat(null | [1, 2])"},
+	{prog: "1 as $x | repeat(0 | $x)"},
+	{prog: "0 | repeat(. as $s | 1 | $s)"},
+	{prog: "def f: ., (. as $s | 1 | 2 | $s + 1 | f); 0 | f"},
+	{prog: "1 as $one | def f: ., (. as $s | null | $one | $s + $one | f); 0 | f"},
+	{prog: "def f: . as $s | $s, (\"a\" | {a: 1} | $s + 1 | f); 0 | f"},
+	{prog: "def o($k): def f: ., (. as $s | 0 | $k | $s + $k | f); 0 | f; o(1)"},
+	{prog: "range(infinite) | until(. % 5 == 0; . as $s | 1 | $s + 1)"},
 	// the same loops with a backtracking point or a caller frame below them
 	{prog: "1, (def f: ., (. + 1 | f); 0 | f)"},
 	{prog: "(def f: ., (. + 1 | f); 0 | f), 1"},
@@ -745,6 +759,22 @@ var turnForms = []form{
 	{prog: "[0 | until(. >= %M%; . + 1 %T%)] | .[0]", want: "M"},
 	{prog: "[last(range(%M%) %T%)] | .[0]", want: "M-1"},
 	{prog: "(1, 2) as $q | [reduce (range(%M%) %T%) as $x (0; . + 1)] | select($q == 2) | .[0]", want: "M"},
+	// constant pipes in loops that run without backtracking
+	{prog: "0 | until(. >= %M%; . as $s | 1 | $s + 1 %T%)", want: "M"},
+	{prog: "0 | until(. >= %M%; . as $s | null | 2 | $s + 1 %T%)", want: "M"},
+	{prog: "0 | until(. as $s | 0 | $s | . >= %M%; . + 1 %T%)", want: "M"},
+	{prog: "{i: 0} | until(.i >= %M%; . as $s | 1 | $s | .i += 1 %T%) | .i", want: "M"},
+	{prog: "def f: if . < %M% then (. as $s | null | $s + 1 %T%) | f else . end; 0 | f", want: "M"},
+	{prog: "def f: if . < %M% then (. as $s | \"a\" | [1, 2] | $s + 1 %T%) | f else . end; 0 | f", want: "M"},
+	{prog: "def f: if . < %M% then (. as $s | 0 | {a: 1} | $s + 1 %T%) | f else . end; 0 | f", want: "M"},
+	{prog: "def f: if (. as $s | null | $s | . < %M%) then . + 1 %T% | f else . end; 0 | f", want: "M"},
+	{prog: "1 as $one | def f: if . < %M% then (. as $s | null | $one | $s + $one %T%) | f else . end; 0 | f", want: "M"},
+	{prog: "def o($k): def f: if . < %M% then (. as $s | \"x\" | $k | $s + $k %T%) | f else . end; 0 | f; o(1)", want: "M"},
+	{prog: "def c: 1 | 2; def f: if . < %M% then . as $s | c | $s + 1 %T% | f else . end; 0 | f", want: "M"},
+	{prog: "last(0 | while(. < %M%; . as $s | 0 | {a: 1} | $s + 1 %T%))", want: "M-1"},
+	{prog: "last(0 | recurse(if . < %M% - 1 then (. as $s | \"a\" | [1, 2] | $s + 1 %T%) else empty end))", want: "M-1"},
+	{prog: "last(0 | recurse(. as $s | null | $s + 1 %T%; . < %M%))", want: "M-1"},
+	{prog: "nth(%M% - 1; repeat(null | 1 %T%))", want: "1"},
 	// self-ticking sources (the scripted input iterator and the native generator hold %M% values)
 	{prog: "reduce inputs as $x (0; . + 1)", want: "M", mode: "self"},
 	{prog: "last(inputs)", want: "M-1", mode: "self"},
